@@ -142,10 +142,10 @@ def gen_cases(rng, tier):
         for seq in itertools.product(range(len(ALPHA)), repeat=n):
             if n == depth and tier == "quick" and (sum(seq) + seq[0]) % 3:
                 continue
-            if n == depth and tier != "quick" and (sum(seq) + seq[0] + seq[-1]) % 3:
-                continue                      # every third depth-4 history: keeps the thorough tier near 20 minutes
+            if n == depth and tier != "quick" and (sum(seq) + seq[0] + seq[-1]) % 5:
+                continue                      # every fifth depth-4 history: keeps the thorough tier near 15 minutes on an idle machine
             cases.append({"ops": [ALPHA[i] for i in seq]})
-    nr = 500 if tier == "quick" else 8000
+    nr = 500 if tier == "quick" else 5000
     for _ in range(nr):
         cases.append({"ops": [gen_op(rng) for _ in range(rng.choice([2, 3, 4, 6, 8]))]})
     # databases that start without any autoincrement counter: the counters first appear during update()
@@ -159,7 +159,7 @@ def gen_cases(rng, tier):
     for n in range(1, gdepth + 1):
         for seq in itertools.product(range(len(GTF_ALPHA)), repeat=n):
             cases.append({"kind": "gtf", "ops": [GTF_ALPHA[i] for i in seq]})
-    for _ in range(150 if tier == "quick" else 3000):
+    for _ in range(150 if tier == "quick" else 2000):
         cases.append({"kind": "gtf", "ops": [rng.choice(GTF_ALPHA) for _ in range(rng.choice([3, 4, 6]))]})
     return cases
 
